@@ -13,6 +13,14 @@ against the property predicates (precedence per leaf path, no leak between platf
 FlowIR.interpolate itself is also driven on generated (variables, string) pairs whose values are built from
 fragments of the reference syntax ('%', '%(', ')s', names), compared with Rescan.interp_string_rs (check_interp_rs).
 
+The same question is also put THROUGH FlowIRConcrete.instance(platform) / replicate(platform) (the route of every
+non-primitive FlowIRExperimentConfiguration; for a subset through ExperimentConfigurationFactory.configurationForExperiment
+(platform=P, primitive=False) on a scratch package): the variables of the generated instance are compared with
+coq/Conf/Instance.v (inst_global / inst_stage / pre-resolution, check_instance) and judged against the documented order,
+and the configuration resolved from FlowIRConcrete(instance, 'default') must equal the one resolved directly whenever
+no global/stage variable (transitively) references a variable that a narrower scope redefines (instance() binds the
+references of global and stage variables early, in their own scope).
+
 Not covered (never generated): array-index expansion (`[`), the `interpreter` rewrite, memory/qos converters,
 float literals inside strings."""
 import copy
@@ -41,10 +49,18 @@ ASSUMPTIONS = [
     'exceptions are compared by class (and variable name for FlowIRVariableUnknown / FlowIRVariableInvalid); '
     'RecursionError of the implementation corresponds to fuel exhaustion (fuel = number of variables + 1) of the model',
     'the component field `override` is carried through by the implementation and removed before comparing',
+    'instance()/replicate() are driven with ignore_errors=True (what FlowIRExperimentConfiguration.replicate passes); the '
+    'partial resolution that fill_in(ignore_errors=True) performs on global and component variables whose '
+    'interpolation met an unknown variable is not modelled (any text is accepted there); which exception instance() '
+    'raises is not compared, only whether it raises',
+    'the configuration resolved through the instance is required to EQUAL the directly resolved one only for '
+    'scope-closed cases (no global/stage variable reaches, through references, a variable redefined in a narrower '
+    'scope): elsewhere instance() binds early by design and the two legitimately differ',
 ]
-HEADER = 'Require Import V.Lib.JTree V.Conf.Model V.Conf.Rescan.\nOpen Scope string_scope.'
+HEADER = 'Require Import V.Lib.JTree V.Conf.Model V.Conf.Rescan V.Conf.Instance.\nOpen Scope string_scope.'
 CHECKER = 'check_case_both'
 CHECKER_RS = 'check_case_rs'
+CHECKER_INST = 'check_instance'
 CORPUS = os.path.join(os.path.dirname(os.path.abspath(__file__)), 'corpus', 'c04')
 
 VAR_RE = re.compile(r'%\(([a-zA-Z0-9_.-]+)\)s')
@@ -411,9 +427,9 @@ class Impl(object):
     def builtin(self):
         return self.F.FlowIR.inject_default_values_to_component({})
 
-    def concrete(self, case):
+    def concrete(self, case, active=None):
         F, C = self.F, self.C
-        concrete = F.FlowIRConcrete(copy.deepcopy(case['doc']), case['platform'], {})
+        concrete = F.FlowIRConcrete(copy.deepcopy(case['doc']), active or case['platform'], {})
         if case['files']:
             paths = []
             for f in case['files']:
@@ -433,14 +449,45 @@ class Impl(object):
     def qmode(self, case):
         """how the question is put (the answer must not depend on it): 0 = object whose active platform is the
         requested one; 1 = object with ANOTHER active platform, the platform passed explicitly; 2 = a primitive
-        resolution (what validate() does) of the same component on the same object first"""
+        resolution (what validate() does) of the same component on the same object first; 3 = the document is loaded
+        WITHOUT one of its variable definitions (default or selected platform, global or this stage), the component
+        is resolved (this fills the cache of resolved configurations), the definition is put back through the public
+        mutator set_platform_global_variable / set_platform_stage_variable with an explicit platform, then asked"""
         h = zlib.crc32(json.dumps([case['doc'], case['platform'], case['stage'], case['name']], sort_keys=True,
                                   default=str).encode()) % 4
         if h == 2 and not case['files']:
             return 1
         if h == 3:
             return 2
+        if h == 1 and self.mutation_site(case) is not None:
+            return 3
         return 0
+
+    def mutation_site(self, case):
+        """(platform, 'global' | stage index, name, value) of one scalar variable definition that no user variable
+        file overrides in place (the files are patched into the stage sections after loading), chosen by the case"""
+        vs = case['doc'].get('variables') or {}
+        user = set()
+        for f in case['files']:
+            user.update((f.get('global') or {}).keys())
+            user.update(((f.get('stages') or {}).get(case['stage']) or {}).keys())
+        sites = []
+        for P in sorted(set(['default', case['platform']])):
+            sec = vs.get(P) or {}
+            for n, v in sorted((sec.get('global') or {}).items()):
+                if isinstance(v, (str, int, bool, float)):
+                    sites.append((P, 'global', n, v))
+            for n, v in sorted(((sec.get('stages') or {}).get(case['stage']) or {}).items()):
+                if isinstance(v, (str, int, bool, float)) and n not in user:
+                    sites.append((P, case['stage'], n, v))
+        if not sites:
+            return None
+        # (prefer the default platform's stage section half of the time: it is a layer of EVERY platform)
+        pref = [x for x in sites if x[0] == 'default' and x[1] != 'global']
+        k = case_hash(case)
+        if pref and k % 2 == 0:
+            return pref[(k // 2) % len(pref)]
+        return sites[(k // 2) % len(sites)]
 
     def outcome(self, case, raw):
         try:
@@ -455,6 +502,23 @@ class Impl(object):
                 concrete = self.F.FlowIRConcrete(copy.deepcopy(case['doc']), others[len(others) // 2], {})
                 r = concrete.get_component_configuration((case['stage'], case['name']), raw=raw, include_default=True,
                                                          platform=case['platform'])
+                r.pop('override', None)
+                return ('ok', r)
+            if mode == 3:
+                P, where, n, v = self.mutation_site(case)
+                less = copy.deepcopy(case)
+                sec = less['doc']['variables'][P]
+                del (sec['global'] if where == 'global' else sec['stages'][where])[n]
+                concrete = self.concrete(less)
+                try:
+                    concrete.get_component_configuration((case['stage'], case['name']), raw=False, include_default=True)
+                except Exception:
+                    pass
+                if where == 'global':
+                    concrete.set_platform_global_variable(n, v, P)
+                else:
+                    concrete.set_platform_stage_variable(where, n, v, P)
+                r = concrete.get_component_configuration((case['stage'], case['name']), raw=raw, include_default=True)
                 r.pop('override', None)
                 return ('ok', r)
             concrete = self.concrete(case)
@@ -477,6 +541,225 @@ class Impl(object):
             if name in ('FlowIRVariableUnknown', 'FlowIRVariableInvalid'):
                 detail = str(getattr(e, 'variable_route', ''))
             return ('err', name, detail)
+
+
+def case_hash(case):
+    return zlib.crc32(json.dumps([case['doc'], case['platform'], case['stage'], case['name'], case['files']],
+                                 sort_keys=True, default=str).encode())
+
+
+INST_ROUTES = ('replicate_active_platform', 'instance_active_platform', 'instance_explicit_platform_on_other_object',
+               'replicate_explicit_platform_on_other_object')
+
+
+def _err_of(e):
+    if isinstance(e, RecursionError):
+        return ('err', 'RecursionError', '')
+    name = type(e).__name__
+    if name == 'FLowIRSymbolTableNotImplemented':
+        name = 'NotImplementedError'
+    detail = ''
+    if name in ('FlowIRVariableUnknown', 'FlowIRVariableInvalid'):
+        detail = str(getattr(e, 'variable_route', ''))
+    return ('err', name, detail)
+
+
+def instance_route(impl, case):
+    """The component resolved THROUGH the instance: returns (route name, observation of the instance's variables
+    ('ok', global, stage, component variables) | ('err', class, detail), outcome of the resolution from
+    FlowIRConcrete(instance, 'default')).  The route (which entry point, active or explicit platform) is a function
+    of the case: the answer must not depend on it."""
+    F = impl.F
+    h = case_hash(case) // 7 % 4
+    P, st = case['platform'], case['stage']
+    others = [q for q in ('default', 'p', 'q') if q != P and q in (case['doc'].get('platforms') or [])]
+    if h >= 2 and not others:
+        h -= 2
+    how = INST_ROUTES[h]
+    try:
+        if h < 2:
+            concrete = impl.concrete(case)
+            inst = (concrete.replicate(ignore_errors=True) if h == 0 else concrete.instance(ignore_errors=True))
+        else:
+            concrete = impl.concrete(case, active=others[case_hash(case) % len(others)])
+            inst = (concrete.instance(platform=P, ignore_errors=True) if h == 2
+                    else concrete.replicate(platform=P, ignore_errors=True))
+    except Exception as e:
+        err = _err_of(e)
+        return how, err, err
+    try:
+        V = inst['variables']['default']
+        comp = [c for c in inst['components'] if c.get('name') == case['name'] and c.get('stage') == st][0]
+        obs = ('ok', copy.deepcopy(V.get('global', {})), copy.deepcopy(V.get('stages', {}).get(st, {})),
+               copy.deepcopy(comp.get('variables', {})), sorted(k for k in inst['variables']))
+    except Exception as e:
+        obs = _err_of(e)
+    try:
+        c2 = F.FlowIRConcrete(inst, 'default', {})
+        r = c2.get_component_configuration((st, case['name']), raw=False, include_default=True)
+        r.pop('override', None)
+        res = ('ok', r)
+    except Exception as e:
+        res = _err_of(e)
+    return how, obs, res
+
+
+def factory_route(impl, case):
+    """the public way to the same thing: a scratch package on disk, loaded as a non-primitive experiment on the
+    platform (FlowIRExperimentConfiguration: patch in the variable files, replicate(), FlowIRConcrete(replicated))"""
+    F, C = impl.F, impl.C
+    impl.k += 1
+    root = os.path.join(impl.tmp, 'pkg_%d' % impl.k)
+    try:
+        pk = os.path.join(root, 'c04.package')
+        os.makedirs(os.path.join(pk, 'conf'))
+        with open(os.path.join(pk, 'conf', 'flowir_package.yaml'), 'w') as fh:
+            F.yaml_dump(copy.deepcopy(case['doc']), fh)
+        paths = []
+        for i, uf in enumerate(case['files']):
+            p = os.path.join(root, 'vars_%d.yaml' % i)
+            with open(p, 'w') as fh:
+                F.yaml_dump(uf, fh)
+            paths.append(p)
+        conf = C.ExperimentConfigurationFactory.configurationForExperiment(
+            pk, platform=case['platform'], createInstanceFiles=False, updateInstanceFiles=False, primitive=False,
+            variable_files=paths, validate=False)
+        r = conf.configurationForNode('stage%d.%s' % (case['stage'], case['name']))
+        r.pop('override', None)
+        return ('ok', r)
+    except Exception as e:
+        return _err_of(e)
+    finally:
+        shutil.rmtree(root, ignore_errors=True)
+
+
+def var_scopes(case):
+    """independent reading of the variable sections of (platform, stage): (global layers, stage layers with the user
+    variables, component layers), each lowest priority first"""
+    doc, P, st = case['doc'], case['platform'], case['stage']
+    comp = [c for c in doc['components'] if c['name'] == case['name'] and c['stage'] == st][0]
+    vs = doc.get('variables', {})
+    ug, us = {}, {}
+    for f in case['files']:           # later files win
+        ug.update(f.get('global', {}) or {})
+        us.update((f.get('stages', {}) or {}).get(st, {}) or {})
+    U = dict(ug)
+    U.update(us)
+
+    def stage_of(plat):
+        d = dict(get(vs, (plat, 'stages', st), {}) or {})
+        d.update(U)
+        return d
+    g = [get(vs, ('default', 'global'), {}) or {}]
+    s = [stage_of('default')]
+    if P != 'default':
+        g.append(get(vs, (P, 'global'), {}) or {})
+        s.append(stage_of(P))
+    ov = (comp.get('override', {}) or {}).get(P) or {}
+    return g, s, [comp.get('variables', {}) or {}, ov.get('variables', {}) or {}]
+
+
+def documented_order(case):
+    """[(scope, layer)] lowest priority first; scope 0 = global, 1 = stage, 2 = component"""
+    g, s, c = var_scopes(case)
+    order = [(0, g[0]), (1, s[0])]
+    if case['platform'] != 'default':
+        order += [(0, g[1]), (1, s[1])]
+    return order + [(2, c[0]), (2, c[1])]
+
+
+def scope_closed(case):
+    """no global (stage) variable reaches, through references, a variable that the stage or the component (the
+    component) redefines: resolving it early in its own scope - what instance() does - cannot change its value"""
+    scope, value = {}, {}
+    for sc, layer in documented_order(case):
+        for k, v in layer.items():
+            scope[k], value[k] = sc, v
+
+    def reach(n, seen):
+        if n in seen:
+            return
+        seen.add(n)
+        v = value.get(n)
+        if isinstance(v, str):
+            for m in VAR_RE.finditer(v):
+                reach(m.group(1), seen)
+    for n in value:
+        if scope[n] < 2:
+            seen = set()
+            reach(n, seen)
+            if any(m in scope and scope[m] > scope[n] for m in seen):
+                return False
+    return True
+
+
+def instance_predicates(ctx, case, ores, how, iobs, ires, ofac, classes):
+    rep = {'platform': case['platform'], 'doc': case['doc'], 'files': case['files'], 'stage': case['stage'],
+           'name': case['name'], 'inj': case.get('inj'), 'route': how}
+    order = documented_order(case)
+    if iobs[0] == 'ok':
+        _ok, G, S, CV, plats = iobs
+        # ---- the instance keeps, for every variable, the value of the layer the documented order picks
+        want, losers = {}, {}
+        for sc, layer in order:
+            if sc < 2:
+                for k, v in layer.items():
+                    if k in want:
+                        losers.setdefault(k, []).append(want[k])
+                    want[k] = v
+        got = dict(G)
+        got.update(S)
+        if set(got) != set(want):
+            ctx.fail(rep, 'the instance generated for the platform defines the variables %s, the layers of the platform '
+                          'define %s' % (sorted(set(got) - set(want)), sorted(set(want) - set(got))), classes)
+        else:
+            for k in sorted(want):
+                w, v = want[k], got[k]
+                literal = not (isinstance(w, str) and '%' in w)
+                if literal and (v != w or type(v) != type(w)):
+                    ctx.fail(rep, 'variable %s of the instance is not the value of the highest-priority layer of the '
+                                  'platform that defines it' % k, classes)
+                    break
+                if not literal and v != w and any(v == l and type(v) == type(l) for l in losers.get(k, [])):
+                    ctx.fail(rep, 'variable %s of the instance is the value of a LOWER-priority layer' % k, classes)
+                    break
+        wantc = dict(order[-2][1])
+        wantc.update(order[-1][1])
+        if set(CV) != set(wantc):
+            ctx.fail(rep, 'the component of the instance does not hold exactly its own and its override variables', classes)
+        if plats != ['default']:
+            ctx.fail(rep, 'the instance keeps variable sections of other platforms', classes)
+    # ---- resolving through the instance gives the documented result
+    closed = scope_closed(case)
+    ctx.count('instance_scope_closed=%s' % closed)
+    benign = case.get('inj') in ('none', 'exhaustive', 'corpus', 'undef')
+    for label, o in (('instance()/replicate() [%s]' % how, ires), ('configurationForExperiment(primitive=False)', ofac)):
+        if o is None or not closed:
+            continue
+        ctx.count('instance_compared')
+        if ores[0] == 'ok' and o[0] == 'ok':
+            if o[1] != ores[1]:
+                bad = sorted('.'.join(map(str, p)) for p, v in leaves(ores[1]) if get(o[1], p, KeyError) != v)
+                ctx.fail(rep, 'the configuration resolved through %s differs from the documented layering at %s'
+                         % (label, bad[:4]), classes)
+        elif ores[0] == 'ok' and benign:
+            ctx.fail(rep, 'resolution through %s fails (%s) although the direct one succeeds' % (label, o[1]), classes)
+        elif ores[0] != 'ok' and o[0] == 'ok' and ores[1] == 'FlowIRVariableUnknown':
+            ctx.fail(rep, 'a reference to an undefined variable is not reported when resolving through %s' % label, classes)
+
+
+def inst_obs_term(iobs):
+    if iobs[0] == 'ok':
+        return '(inl (%s, %s, %s))' % (cjv(iobs[1]), cjv(iobs[2]), cjv(iobs[3]))
+    return '(inr (%s, %s))' % (cstr(iobs[1]), cstr(iobs[2]))
+
+
+def inst_term(dflt, case, iobs):
+    doc = case['doc']
+    i = '(%s, (%s, %s, %s), %s, %s, %s, %s)' % (
+        'DFLT', cjv(doc.get('blueprint', {})), cjv(doc.get('variables', {})), clist(doc['components'], cjv),
+        clist(case['files'], cjv), cstr(case['platform']), cZ(case['stage']), cstr(case['name']))
+    return '((%s, %s) : case_in * inst_outcome)' % (i, inst_obs_term(iobs))
 
 
 def c_outcome(o):
@@ -668,16 +951,28 @@ def exhaustive_cases():
 def _explore(ctx, cases, metamorphic=True):
     impl = Impl()
     terms, kept = [], []
+    iterms, ikept = [], []
     try:
         dflt = impl.dflt()
         builtin = impl.builtin()
         for case in cases:
-            ctx.count('question_%s' % ('active_platform', 'explicit_platform_on_other_object', 'after_primitive_resolution')[impl.qmode(case)])
+            ctx.count('question_%s' % ('active_platform', 'explicit_platform_on_other_object', 'after_primitive_resolution',
+                                       'after_resolving_then_mutator')[impl.qmode(case)])
             oraw = impl.outcome(case, True)
             ores = impl.outcome(case, False)
             o_str = impl.outcome(strip_foreign(case), False) if metamorphic else None
             cls = classes_of(case)
             predicates(ctx, case, oraw, ores, builtin, o_str, cls)
+            how, iobs, ires = instance_route(impl, case)
+            ctx.count('instance_route_' + how)
+            ctx.count('instance_outcome=' + ('ok' if iobs[0] == 'ok' else iobs[1]))
+            ofac = None
+            if case.get('corpus') or case_hash(case) % 6 == 0:
+                ofac = factory_route(impl, case)
+                ctx.count('instance_route_factory')
+            instance_predicates(ctx, case, ores, how, iobs, ires, ofac, cls)
+            iterms.append(inst_term(dflt, case, iobs))
+            ikept.append((case, how, iobs))
             ol, vl = expected_layers(case, builtin)
             # non-trivial: some option or variable is defined by at least two layers of the selected platform
             multi = 0
@@ -711,12 +1006,24 @@ def _explore(ctx, cases, metamorphic=True):
     finally:
         impl.close()
     header = HEADER + '\nDefinition DFLT : jv := %s.' % cjv(dflt)
+    # one Coq term per case: (input, (raw outcome, resolved outcome), observation of the instance)
+    def both(i):
+        return '((%s, %s) : case_in * (outcome * outcome) * inst_outcome)' % (terms[i], inst_obs_term(ikept[i][2]))
     plain = [i for i, (c, _a, _b) in enumerate(kept) if not c.get('rescan')]
     resc = [i for i, (c, _a, _b) in enumerate(kept) if c.get('rescan')]
-    bad = [plain[j] for j in ctx.model_mismatches(header, [terms[i] for i in plain], CHECKER, chunk=40)]
+    anybad = [plain[j] for j in ctx.model_mismatches(header, [both(i) for i in plain], CHECKER + '_i', chunk=40)]
     if resc:
-        bad += [resc[j] for j in ctx.model_mismatches(header, [terms[i] for i in resc], CHECKER_RS, chunk=40,
-                                                      name='model_rs')]
+        anybad += [resc[j] for j in ctx.model_mismatches(header, [both(i) for i in resc], CHECKER_RS + '_i', chunk=40,
+                                                         name='model_rs')]
+    # which half disagrees (only the mismatching cases are evaluated again)
+    bp = [i for i in anybad if not kept[i][0].get('rescan')]
+    br = [i for i in anybad if kept[i][0].get('rescan')]
+    n0 = ctx.model_cases
+    bad = [bp[j] for j in ctx.model_mismatches(header, [terms[i] for i in bp], CHECKER, chunk=40, name='model_again')]
+    bad += [br[j] for j in ctx.model_mismatches(header, [terms[i] for i in br], CHECKER_RS, chunk=40, name='model_rs_again')]
+    ibad = [anybad[j] for j in ctx.model_mismatches(header, [iterms[i] for i in anybad], CHECKER_INST, chunk=40,
+                                                    name='model_inst')]
+    ctx.model_cases = n0
     bad.sort()
     for k, i in enumerate(bad):
         case, oraw, ores = kept[i]
@@ -731,6 +1038,18 @@ def _explore(ctx, cases, metamorphic=True):
                       'name': case['name'], 'inj': case.get('inj')},
                      {'raw': oraw if oraw[0] != 'ok' else 'ok', 'resolved': ores}, model,
                      'C04 get_component_configuration (raw / resolved) vs Conf.Model.resolve_raw / resolve / Conf.Rescan.resolve_rs')
+    for k, i in enumerate(ibad):
+        case, how, iobs = ikept[i]
+        model = ''
+        if k < 2:
+            model = ctx.model_eval(header, 'let \'(dflt, (b, v, cs), files, p, stage, name) := fst %s in '
+                                   'let d := {| d_blueprint := b; d_variables := v; d_components := cs |} in '
+                                   'match user_vars files with Some u => Some (inst_vars_pre rs_extra d u p (zrepr stage), '
+                                   'inst_must_fail dflt d u p, inst_may_fail d u p) | None => None end' % iterms[i])[-1500:]
+        ctx.disagree({'platform': case['platform'], 'doc': case['doc'], 'files': case['files'], 'stage': case['stage'],
+                      'name': case['name'], 'inj': case.get('inj'), 'route': how},
+                     {'instance variables (global, stage, component)': list(iobs[:4])}, model,
+                     'C04 FlowIRConcrete.instance/replicate (variables of the instance) vs Conf.Instance.inst_vars_pre')
 
 
 # ------------------------------------------------------------------ FlowIR.interpolate on its own (re-scanning)
@@ -855,7 +1174,7 @@ def run(ctx):
                 'depth 5, one injected fault in ~29% of cases (undefined reference 15%, cycle, incomplete, shape clash, '
                 'bad typed text, dotted name, invalid variable value, 4%: a variable holding % or %( completes a new reference during substitution); plus every define/omit pattern of one option and '
                 'one variable over 8 layers (256 cases) and the corpus; non-trivial = some option or variable is '
-                'defined by >= 2 layers of the selected platform; distinct by (platform, document, files); plus 500 (thorough 4000) direct calls of FlowIR.interpolate on variables a..d and a string built from fragments of the reference syntax (%, %(, )s, names, complete/incomplete/dotted references)')
+                'defined by >= 2 layers of the selected platform; distinct by (platform, document, files); every case is asked in one of four ways (active platform, explicit platform on an object of another platform, after a primitive resolution, after resolving and then putting one variable definition back through set_platform_global/stage_variable) and ALSO resolved through instance()/replicate() (four entry-point variants, ignore_errors=True) and, for the corpus and 1 case in 6, through ExperimentConfigurationFactory.configurationForExperiment(primitive=False) on a scratch package; plus 500 (thorough 4000) direct calls of FlowIR.interpolate on variables a..d and a string built from fragments of the reference syntax (%, %(, )s, names, complete/incomplete/dotted references)')
     rng = ctx.rng
     n = 900 if ctx.tier == 'quick' else 6000
     cases = corpus_cases()
